@@ -311,3 +311,15 @@ from vlib import kwcheck as _kw   # noqa: E402
          "result as the positional call, and every documented name is accepted: " + ", ".join(_kw.PROPS["C12"]))
 def c12_keywords(ctx, case):
     _kw.body(ctx, case)
+
+
+# ---- the object between two reads: display calls, in-place edits of the samples, a refilled buffer ------------
+from vlib import lifecheck as _life   # noqa: E402
+
+
+@sub("C12.life", strategy=_life.life_case(['pyule']), quick=160, thorough=4000,
+     doc="the estimate (and every exposed model quantity) of a live object after p.plot(norm=True) / p.plot() / str(p) is "
+         "bit-identical to what it was, and after p.data *= g, p.data -= mean or the construction buffer refilled in place and "
+         "assigned again equals that of a fresh object on the samples now held: pyule")
+def c12_life(ctx, case):
+    _life.body(ctx, case)
